@@ -57,6 +57,7 @@ type sim struct {
 
 	out     *update
 	lagMode bool
+	fullLag bool
 
 	// statistics
 	ops, cycles, appended, conflicts, restores, compactions int
@@ -114,6 +115,13 @@ func Run(ctx *runner.Ctx) *runner.Result {
 		s.lagMode = false
 	case "1":
 		s.lagMode = true
+	case "2":
+		// NOT part of the registered check: every operation may happen between
+		// GetUpdate and Commit (the etcd style protocol the (index, term)
+		// acknowledgement was designed for). dragonboat's step worker never
+		// does that; see the package comment.
+		s.lagMode = true
+		s.fullLag = true
 	default:
 		s.lagMode = src.Chance(1, 3)
 	}
@@ -262,7 +270,17 @@ func (s *sim) newEntry(index, term uint64) pb.Entry {
 
 func (s *sim) step() {
 	src := s.src
-	op := src.Weighted([]int{10, 5, 7, 4, 2, 3, 2, 2, 2, 2})
+	op := src.Weighted([]int{10, 5, 7, 4, 2, 3, 3, 2, 2, 2})
+	if s.out != nil && !s.fullLag {
+		// between GetUpdate and Commit of a node only things that do not run
+		// on its step worker can happen: the state machine applies, the
+		// snapshot worker saves a snapshot, the apply worker applies a config
+		// change (which lets a leader re-evaluate its commit index), remote
+		// replicas move on. Messages, proposals and ticks wait for the worker.
+		if op == 0 || op == 4 || op == 6 || op == 8 || (op == 1 && !s.isLeader) {
+			op = 2
+		}
+	}
 	switch op {
 	case 0:
 		s.opAppend()
@@ -348,7 +366,7 @@ func (s *sim) opRoleChange() {
 	nb.term = s.nextTerm
 	s.nextTerm++
 	nb.ents = append(nb.ents, s.newEntry(nb.last()+1, nb.term))
-	nb.commit = k
+	nb.commit = s.m.committed + uint64(src.Intn(int(k-s.m.committed)+1))
 	s.curTerm = nb.term
 	s.isLeader = false
 	s.lead = nb
@@ -595,6 +613,8 @@ func (s *sim) opInstallSnapshot() {
 	idx := lo + uint64(src.Intn(int(b.commit-lo)+1))
 	if src.Chance(1, 2) {
 		idx = b.commit
+	} else if c := s.m.committed; c >= lo && c < b.commit && src.Chance(1, 2) {
+		idx = c + 1 + uint64(src.Intn(int(b.commit-c)))
 	}
 	term, _ := b.termAt(idx)
 	s.ctx.Ev("install-snapshot", idx, term)
@@ -642,10 +662,13 @@ func (s *sim) opCreateSnapshot() {
 	}
 	src := s.src
 	idx := s.rsmApplied
+	if idx < s.m.floor {
+		// a snapshot was restored and the state machine has not recovered from
+		// it yet: node.doSave refuses to save (applied <= pushed snapshot index)
+		return
+	}
 	t, ok := s.m.term(idx)
 	if !ok {
-		// applied index below the floor cannot happen: the floor never passes
-		// the applied index
 		panic(fmt.Sprintf("harness: applied index %d not in model (floor %d last %d)", idx, s.m.floor, s.m.last()))
 	}
 	ss := pb.Snapshot{Index: idx, Term: t, Type: pb.RegularStateMachine}
@@ -1055,6 +1078,12 @@ func (s *sim) checkEntries(lo, hi, limit uint64) {
 	m := s.m
 	s.probeCalls++
 	got, err := s.el.Entries(lo, hi, limit)
+	if lo == hi && lo >= m.first() && err != nil && isLogErr(err) {
+		// an empty range holds no entry; the contract does not say whether
+		// asking for it is an error
+		s.ctx.Count("probe.empty-range-error", 1)
+		return
+	}
 	if lo < m.first() {
 		// outside the logical log: an error is fine; data must still be right
 		if err != nil {
@@ -1216,11 +1245,13 @@ func (s *sim) checkAll(where string) {
 		}
 	}
 	// which entries are ready to apply
-	if got := el.HasEntriesToApply(); got != (m.processed < m.committed) {
+	if got := el.HasEntriesToApply(); s.out == nil && got != (m.processed < m.committed) {
 		s.vio("apply-mismatch", "%s: hasEntriesToApply %t, model processed %d committed %d", where, got, m.processed, m.committed)
 		return
 	}
 	if s.out == nil {
+		// (between GetUpdate and Commit the core never asks again: what was
+		// handed out is only accounted for by Commit)
 		ents, err := el.EntriesToApply()
 		if err != nil {
 			s.vio("spurious-error", "%s: EntriesToApply failed: %v", where, err)
